@@ -267,6 +267,13 @@ class TunnelCommunity(Community):
 
         await super().unload()
 
+        # The removal tasks may have been cancelled by the task manager shutdown: release what they left behind.
+        for exit_socket in list(self.exit_sockets.values()):
+            await exit_socket.close()
+        self.exit_sockets.clear()
+        self.relay_from_to.clear()
+        self.circuits.clear()
+
     def get_serializer(self) -> Serializer:
         """
         Extend our serializer with the ability to (un)pack exit node flags.
